@@ -2,7 +2,6 @@ package http2utils
 
 import (
 	"bytes"
-	"crypto/rand"
 	"fmt"
 	"log"
 	"path/filepath"
@@ -102,7 +101,12 @@ func AddPadding(b []byte) []byte {
 
 	b[0] = uint8(n)
 
-	_, _ = rand.Read(b[nn+1 : nn+n])
+	// Padding octets are zero on the wire (RFC 7540 6.1). Resize may hand back
+	// stale bytes from the buffer's spare capacity, so clear all of them.
+	pad := b[nn+1 : nn+n+1]
+	for i := range pad {
+		pad[i] = 0
+	}
 
 	return b
 }
